@@ -16,7 +16,7 @@ import vlib
 from props import findgen as G
 
 PROP = "C01"
-LEMMAS = ["Proofs/Lemmas/Time.lean", "Proofs/Lemmas/Find.lean"]
+LEMMAS = ["Proofs/Lemmas/Time.lean", "Proofs/Lemmas/Find.lean", "Proofs/Lemmas/Spec.lean"]
 MODELS = ["Model/Time.lean", "Model/Find.lean"]
 FREQ_US = {"1h": 3600_000_000, "6h": 6 * 3600_000_000, "1D": 86400_000_000}
 ANCHORS = [("typhon/files/fileset.py", "FileSet." + n) for n in (
